@@ -29,7 +29,8 @@ def parseFindInput (j : Json) : P FindInput := do
 def handleFind (op : String) (j : Json) : Option (P Json) :=
   match op with
   | "find" => some do
-      let inp ← parseFindInput j
+      -- the search works on the images of the atoms inside the cell (`findW = find ∘ wrapped`)
+      let inp := (← parseFindInput j).wrapped
       let hints ← (← arr (← field j "hints")).mapM parseOptNat
       let h1 := hints.getD 0 none; let h2 := hints.getD 1 none; let ho := hints.getD 2 none
       let (r1, r2) := resolveAxis inp.ppos h1 h2
